@@ -444,6 +444,12 @@ def run_chunk(rec, cid, n_chunks):
                     return ('undecided', 'symbolic execution', '%s | configuration %s; not reproduced natively' % (msg, cfg))
                 return ('refuted', 'symbolic execution; native replay', '%s | configuration %s | native: %s' % (msg, cfg, wit['what']), wit)
             if ob in undec:
+                try:
+                    wit = native_witness(*undec[ob][0], seed=rec.seed)
+                except Exception:
+                    wit = None
+                if wit is not None:
+                    return ('refuted', 'native replay against the independent reference (symbolic execution undecided)', '%s | configuration %s | native: %s' % (undec[ob][1], undec[ob][0], wit['what']), wit)
                 return ('undecided', 'symbolic execution', '%s | configuration %s' % (undec[ob][1], undec[ob][0]))
             return ('discharged', 'symbolic execution of the real class against recording stubs + sigma-normal-form/cancel + z3', '%d configurations in this chunk' % n)
         rec.run('chunk%02d/%s' % (cid, ob), funcs, 'Pκ', go)
